@@ -381,6 +381,15 @@ func runChild(prop, tier, only, resultPath string, seed int) {
 			e.replace[target] = rf
 		}
 		res.Bounds["unroll"] = fmt.Sprint(e.unroll)
+		if v := e.cfg["horizon"]; v != "" {
+			res.Bounds["horizon_ns"] = v + " (the modelled run is shorter than this: tickers/timers with a constant period/delay of at least the horizon never deliver)"
+		}
+		if v := e.cfg["timers"]; v != "" {
+			res.Bounds["timers"] = v + " (every timer/ticker event carries an instant; k-th tick not before arming + k*period; Go <= 1.22 buffered timer values)"
+		}
+		if e.cfg["deadlock"] != "" {
+			res.Bounds["deadlock_query"] = "prefix encoding: no reachable state with a thread blocked forever (paths cut at the unroll bound excluded)"
+		}
 		timeout = 60
 		if tier == "thorough" {
 			timeout = 600
